@@ -1267,7 +1267,8 @@ Proof.
   intro ro. split; [vm_compute; reflexivity|]. split; [exact y_chunks_ok|]. split.
   - assert (E : y_cis = map fst y_pairs) by (vm_compute; reflexivity). rewrite E.
     apply ci_match_pairs. rewrite y_pairs_list_eq. unfold y_pairs_list.
-    repeat (constructor; [vm_compute; repeat split|]). constructor.
+    constructor; [vm_compute; repeat split|]. constructor; [vm_compute; repeat split|].
+    constructor; [vm_compute; repeat split|]. constructor; [vm_compute; repeat split|]. constructor.
   - destruct y_read_value as [H _]. fold ro in H.
     destruct (y_read ro) as [[[ms e] st]| | | |]; try discriminate.
     exists ms, st. inversion H. reflexivity.
